@@ -320,7 +320,8 @@ def main(prop, argv=None):
 
     # -- vacuity: every kernel must have complete paths
     for kn, pk in per_kernel.items():
-        if pk['complete'] == 0 and not any(v[0] == kn for v in violations) and not errors:
+        if (pk['complete'] == 0 and not any(v[0] == kn for v in violations) and not errors
+                and not (kmap[kn].concrete_fallback and pk['aborted'].get('unencodable'))):
             harness_errors.append(f'kernel {kn}: no complete path (vacuous harness)')
 
     # -- candidate counterexamples: replay natively before reporting
